@@ -29,7 +29,7 @@ TABLE = {
         "process; after every set_mlmc_results and at return the stored rows, Nl, price and derived statistics are compared "
         "with a plain list of the samples actually simulated. Bookkeeping across passes and level additions is a history "
         "property, so exhaustive exploration of loop trajectories is the fitting level.",
-        "The coupling process is a scripted stand-in implementing the engine-facing interface; single process; horizon 40 "
+        "The coupling process is a scripted stand-in implementing the engine-facing interface; single process plus the pool branch through an in-process simulated pool; horizon 40 "
         "batches per level; regimes from a 5-letter menu.",
         "6/C05",
     ),
@@ -120,8 +120,8 @@ TABLE = {
         "exactly and sum_x rate(x) P(x->y) is compared with the rate of every coarse state of a chain built independently on "
         "the un-refined grid; adjacency, copied even increments, coarse drift / diffusion and shared Brownian increments are "
         "checked on the same objects, and the assembled coupled pair against the kernel images for scripted variates.",
-        "Rates are the library's mass() on reference cells (C01); levels <= 2 (3); the SDE coupling is checked for its drifts "
-        "only (its recursion is C16).",
+        "Rates are the library's mass() on reference cells (C01); levels <= 2 (3); the SDE coupling is checked for its drifts, "
+        "its driver's kernel and paths (its recursion is C16).",
         "6/C03",
     ),
     "C12": (
@@ -142,8 +142,8 @@ TABLE = {
         "must be disjoint; seeded single-process runs must repeat bit for bit from different pre-existing generator states. "
         "Worker scheduling cannot be controlled for real OS processes, so the pool is a model whose chunking, per-chunk "
         "closure copies and result order are validated against the real pathos pool on every run.",
-        "SimPool stands for pathos (validated by 5 real-pool traces per run); OS timing, pid reuse and non-fork start methods "
-        "are not modelled; HEM chain on an 11-state grid with the inversion sampler.",
+        "SimPool stands for pathos (validated by 25 real-pool traces per quick run); OS timing, pid reuse and non-fork start methods "
+        "are not modelled; LevyProcess / 1-d chain / coupling with HEM and Merton on an 11-state grid, inversion / table / alias samplers.",
         "6/C08",
     ),
     "C18": (
@@ -187,7 +187,7 @@ TABLE = {
         "solve; coefficient-independent consequences where the controls' sample covariance is singular), variance inequality "
         "and spot statistics, for every sequence of terminal values and every configuration of payoff dimension, controls, "
         "notional, discount factor.",
-        "Scripted process; single process (the pool is C08); alphabets and N bounded as stated.",
+        "Scripted process; single process plus the pool branch through an in-process simulated pool and two real-pool cases (worker scheduling is C08); alphabets and N bounded as stated.",
         "6/C07",
     ),
     "C15": (
@@ -208,7 +208,7 @@ TABLE = {
         "truncated process computed from the triplet, the declared cut-off and the density; the added variance with the "
         "central-cell second moment (zero for finite variation); the total variance within the per-cell oscillation bound; the "
         "same per margin of copula chains, and the copula diffusion matrix against the central-box covariance.",
-        "Lattice points only; quadrature with the x = t^8 substitution near the origin; dimension 3 left out; "
+        "Lattice points only; quadrature with the x = t^8 substitution near the origin; 3-d / 4-d chains for the drift only; "
         "infinite-variation copula diffusion matrices in a few cases (constructor cost).",
         "6/C04",
     ),
